@@ -143,6 +143,18 @@ var blockMuts = []blockMut{
 		p.ExtraData[0]++
 		f.dequeue = false
 	}},
+	{"systx-invented-after-the-due-ones", func(w *World, p *goattypes2.ExecutionPayload, f *pfactsGo) {
+		// the due system transactions stay in front, byte for byte; one more is announced and inserted behind them
+		n := int(p.ExtraData[0])
+		if len(p.Transactions) >= n {
+			txs := append([][]byte{}, p.Transactions[:n]...)
+			txs = append(txs, []byte{0x60, 0xc1})
+			p.Transactions = append(txs, p.Transactions[n:]...)
+			p.ExtraData = append([]byte{}, p.ExtraData...)
+			p.ExtraData[0]++
+			f.dequeue = false
+		}
+	}},
 	{"user-tx-appended", func(w *World, p *goattypes2.ExecutionPayload, f *pfactsGo) {
 		p.Transactions = append(p.Transactions, []byte{0x02, 0x01}) // ordinary EL transactions after the system txs are fine
 	}},
